@@ -6,7 +6,7 @@
     ranks each group strictly before the later ones (strict exchange + transitivity through non-empty
     groups).  [OrderedPartition.consistent_with] (model, after the repair of F8) is proved total and equal to
     that relation ([C07_consistent_with_iff]); model = code on ALL pairs over 3-4 elements per run. *)
-From Corankco Require Import Prelude Scheme Rank KemenySpec CostTable OptTheory Partition PartitionProof ConsistentProof.
+From Corankco Require Import Prelude Scheme Rank KemenySpec CostTable OptTheory Partition PartitionProof ConsistentProof SccProof.
 Local Open Scope Z_scope.
 
 Theorem C07_every_optimum_respects : forall K U P c,
@@ -63,3 +63,11 @@ Theorem C07_consistent_with_false_iff : forall P c nc np,
    ~ (nc = np /\ forall x y, In x (elems P) -> In y (elems P) -> bucket_id P x < bucket_id P y -> bucket_id c x < bucket_id c y)).
 Proof. exact consistent_with_false_iff. Qed.
 Print Assumptions C07_consistent_with_false_iff.
+
+(** with the partition the model computes as starting point, nothing is assumed any more *)
+Theorem C07_model_parfront : forall K n, mirror K ->
+  exists P, parfront_from K (sccs K n) = Some P /\ concat P = concat (sccs K n) /\ Forall (fun g => g <> []) P /\
+    forall c, is_optimal K (seq 0 n) c ->
+      forall x y, In x (seq 0 n) -> In y (seq 0 n) -> bucket_id P x < bucket_id P y -> bucket_id c x < bucket_id c y.
+Proof. exact model_parfront_every_optimum. Qed.
+Print Assumptions C07_model_parfront.
